@@ -206,7 +206,8 @@ End:
 
 	itr.rowBuilder.AddMetricName(metricName)
 	itr.rowBuilder.AddTimestamp(itr.originRow.Timestamp())
-	ns := itr.originRow.NameSpace()
+	// NOTE: need use raw namespace of the row, originRow.NameSpace() returns default namespace if row's is empty.
+	ns := itr.originRow.m.Namespace()
 	if len(ns) == 0 {
 		// if row namespace is empty, use request's namespace
 		ns = itr.namespace
